@@ -23,6 +23,8 @@ import (
 	"encoding/json"
 	"encoding/pem"
 	"fmt"
+	"os"
+	"path/filepath"
 	"strconv"
 	"strings"
 	"time"
@@ -69,9 +71,41 @@ var (
 	oidAppleNonce   = asn1.ObjectIdentifier{1, 2, 840, 113635, 100, 8, 11, 1}
 
 	caGood, caOther *minica.CA
+	caSys           *minica.CA // planted into the process's *system* trust store, never configured anywhere
+	sysRootDir      string
 	attKeys         map[string]crypto.Signer
 	provCache       = map[string]*provisioner.ACME{}
 )
+
+// plantSystemRoot makes a CA that only the operating-system trust store of this process knows
+// (SSL_CERT_FILE / SSL_CERT_DIR are read once, on the first verification without explicit roots).
+// A validator that falls back to the system pool instead of the configured / built-in vendor root
+// accepts chains from it; the unchanged code must not.
+func plantSystemRoot() {
+	var err error
+	if caSys, err = minica.New(minica.WithName("C11 planted system root")); err != nil {
+		panic(err)
+	}
+	if sysRootDir, err = os.MkdirTemp("", "c11-sysroot-"); err != nil {
+		panic(err)
+	}
+	file := filepath.Join(sysRootDir, "roots.pem")
+	if err := os.WriteFile(file, pemOf(caSys.Root), 0o600); err != nil {
+		panic(err)
+	}
+	os.Setenv("SSL_CERT_FILE", file)
+	os.Setenv("SSL_CERT_DIR", filepath.Join(sysRootDir, "empty"))
+	// sanity: the planted root really is a system root of this process
+	leaf, err := caSys.Sign(&x509.Certificate{Subject: pkix.Name{CommonName: "probe"}, PublicKey: caSys.Signer.Public()})
+	if err != nil {
+		panic(err)
+	}
+	inter := x509.NewCertPool()
+	inter.AddCert(caSys.Intermediate)
+	if _, err := leaf.Verify(x509.VerifyOptions{Intermediates: inter, KeyUsages: []x509.ExtKeyUsage{x509.ExtKeyUsageAny}}); err != nil {
+		fmt.Fprintln(os.Stderr, "note: planted system root not effective:", err)
+	}
+}
 
 func initAttest() {
 	var err error
@@ -176,6 +210,9 @@ func (w *DAW) leaf(key crypto.Signer) (*x509.Certificate, []interface{}) {
 	ca := caGood
 	if w.X5c == "wrongca" {
 		ca = caOther
+	}
+	if w.X5c == "sysca" {
+		ca = caSys
 	}
 	tmpl := &x509.Certificate{Subject: pkix.Name{CommonName: "attestation cert"}, PublicKey: key.Public(), ExtraExtensions: exts}
 	if w.X5c == "expired" {
@@ -456,7 +493,7 @@ func (w *DAW) modelFields(k *Case) string {
 var daMuts = []string{
 	"exact", "exact", "exact", "exact", "other-thumb", "other-token", "token-only", "ka-nl", "ka-upper", "sig-absent", "sig-notbytes", "sig-notcbor", "sig-garbage", "sig-flip",
 	"x5c-absent", "x5c-notarray", "x5c-empty", "x5c-leafnotbytes", "x5c-leafgarbage", "x5c-restgarbage", "x5c-leafonly", "x5c-wrongca", "x5c-expired", "x5c-rootonly",
-	"roots-other", "roots-none", "serial-other", "serial-absent", "serial-malformed", "serial-trailing", "serial-prefix", "key-p384", "key-rsa", "key-ed25519",
+	"roots-other", "roots-none", "sysca-noroots", "sysca-noroots", "sysca-configured", "serial-other", "serial-absent", "serial-malformed", "serial-trailing", "serial-prefix", "key-p384", "key-rsa", "key-ed25519",
 	"fmt-disabled", "fmt-unknown", "fmt-case", "fmt-unknown-enabled", "payload-notjson", "payload-errfield", "payload-badb64", "payload-emptyobj", "payload-bracesobj",
 	"payload-notcbor", "payload-cborwrongtype", "payload-noattobj", "authz-missing", "authz-dbfail",
 	"nonce-absent", "nonce-other-token", "nonce-keyauth", "nonce-empty", "nonce-trunc", "udid-only", "serial-only", "ids-none", "ids-swapped-case",
@@ -509,6 +546,10 @@ func genDA(r *c.Rng, k *Case) {
 		w.Roots = "other"
 	case "roots-none":
 		w.Roots = "none"
+	case "sysca-noroots": // chain from a CA only the OS trust store knows, provisioner without roots
+		w.Roots, w.X5c = "none", "sysca"
+	case "sysca-configured":
+		w.X5c = "sysca"
 	case "serial-other":
 		w.Serial, w.ASerial, w.AUDID = "424242", "other-serial", "other-udid"
 	case "serial-absent":
@@ -597,6 +638,17 @@ func genDA(r *c.Rng, k *Case) {
 			w.TPM.Mut = strings.TrimPrefix(m, "tpm-")
 		}
 	}
+	// the owning authorization: mostly pending and unexpired; also already invalid / valid, or expired
+	switch r.Intn(8) {
+	case 0:
+		k.AzSt = "invalid"
+	case 1:
+		k.AzSt = "valid"
+	case 2:
+		k.AzExp = true
+	case 3:
+		k.AzSt, k.AzExp = c.Pick(r, []string{"invalid", "valid"}), true
+	}
 	// second-order: now and then combine with a key type
 	if r.Chance(1, 6) && w.Key == "p256" {
 		w.Key = c.Pick(r, []string{"rsa", "ed25519"})
@@ -620,6 +672,23 @@ func cornerDA() []*Case {
 	// D14 (apple half): no nonce extension at all — nothing ties the attestation to this challenge
 	out = append(out, &Case{Op: "validate", Typ: "da", Status: "pending", Token: tok, Value: "udid-1", Acct: 0, Mut: "apple:nonce-absent",
 		DA: &DAW{Format: "apple", Roots: "ca", X5c: "ok", Key: "p256", ASerial: "sn-1", AUDID: "udid-1"}})
+	// a genuine attestation must not touch the owning authorization's status: pending / invalid / expired / valid
+	for _, az := range []struct {
+		st  string
+		exp bool
+	}{{"", false}, {"invalid", false}, {"", true}, {"valid", false}, {"invalid", true}} {
+		out = append(out, &Case{Op: "validate", Typ: "da", Status: "pending", Token: tok, Value: "12345678", Acct: 0, Mut: "step:exact-az", AzSt: az.st, AzExp: az.exp,
+			DA: &DAW{Format: "step", Roots: "ca", X5c: "ok", Key: "p256", Sig: "ok", Signed: expectedKeyAuth(tok, 0), Serial: "12345678"}})
+		out = append(out, &Case{Op: "validate", Typ: "da", Status: "pending", Token: tok, Value: "udid-1", Acct: 0, Mut: "apple:exact-az", AzSt: az.st, AzExp: az.exp,
+			DA: &DAW{Format: "apple", Roots: "ca", X5c: "ok", Key: "p256", ASerial: "sn-1", AUDID: "udid-1", HasNonc: true, Nonce: sha(tok)}})
+		out = append(out, &Case{Op: "validate", Typ: "da", Status: "pending", Token: tok, Value: "device-1", Acct: 0, Mut: "tpm:exact-az", AzSt: az.st, AzExp: az.exp,
+			DA: &DAW{Format: "tpm", TPMVer: "2.0", Roots: "ca", X5c: "ok", Signed: expectedKeyAuth(tok, 0), TPM: &TPMSpec{PIDs: []string{"device-1"}}}})
+	}
+	// no attestation roots configured + a chain from a CA only the system trust store knows: must be refused
+	out = append(out, &Case{Op: "validate", Typ: "da", Status: "pending", Token: tok, Value: "udid-1", Acct: 0, Mut: "apple:sysca-noroots",
+		DA: &DAW{Format: "apple", Roots: "none", X5c: "sysca", Key: "p256", ASerial: "sn-1", AUDID: "udid-1", HasNonc: true, Nonce: sha(tok)}})
+	out = append(out, &Case{Op: "validate", Typ: "da", Status: "pending", Token: tok, Value: "12345678", Acct: 0, Mut: "step:sysca-noroots",
+		DA: &DAW{Format: "step", Roots: "none", X5c: "sysca", Key: "p256", Sig: "ok", Signed: expectedKeyAuth(tok, 0), Serial: "12345678"}})
 	// regression inputs for fix b9777f2 (nil *acme.Error panic): P-384 attestation key; serial extension with trailing bytes
 	out = append(out, &Case{Op: "validate", Typ: "da", Status: "pending", Token: tok, Value: "12345678", Acct: 0, Mut: "step:key-p384",
 		DA: &DAW{Format: "step", Roots: "ca", X5c: "ok", Key: "p384", Sig: "ok", Signed: expectedKeyAuth(tok, 0), Serial: "12345678"}})
